@@ -110,11 +110,10 @@ def perturbations(values: Dict[str, Any], params: List[Dict[str, Any]]) -> Itera
 def assignments(prog: Dict[str, Any]) -> Iterator[Tuple[str, Dict[str, Any]]]:
     if prog["tags"][0] == "prog":
         seen = set()
-        single = len(prog["tags"][1].split("+")) == 1 and len(prog["params"]) <= 2
-        for ai, a in enumerate(prog["assign"] if single else prog["assign"][:2]):
+        for ai, a in enumerate(prog["assign"]):  # every valid assignment; single-fault neighbours of the first two
             yield "valid", a
             if ai >= 2:
-                continue  # single-fault neighbours of the first two assignments only
+                continue
             for kind, d in perturbations(a, prog["params"]):
                 key = repr(sorted(d.items(), key=lambda kv: kv[0]))
                 if key not in seen:
@@ -165,7 +164,11 @@ def check_program(L: harness.Loaded, prog: Dict[str, Any], part: Part) -> None:
             part.count("dont_care")
             continue
         dec, dexc = harness.odx_decode(msg, pdu)
-        if dexc is not None:
+        if dexc is not None and "NRC-CONST parameter" in str(dexc):
+            # the encoder does not verify that the value overlapping an NRC-CONST is one of its coded values
+            part.violation(f"C04/{tag}/nrc-const-not-verified-by-encoder/{bk}", case,
+                           f"{kind}: {show(values)} -> {pdu.hex()} -> {type(dexc).__name__}: {str(dexc)[:120]}")
+        elif dexc is not None:
             part.violation(f"C04/{tag}/accepted-but-undecodable/{bk}", case,
                            f"{kind}: {show(values)} -> {pdu.hex()} -> {type(dexc).__name__}: {str(dexc)[:120]}")
         elif not loose_equal({k: (({kk: vv for kk, vv in v.items() if isinstance(dec, dict) and isinstance(dec.get(k), dict) and kk in dec[k]})
@@ -181,7 +184,7 @@ def units_for(ctx: Ctx) -> List[Tuple[str, List[Dict[str, Any]]]]:
     u = space.layer_a_int_units(ctx.quick, wide=True)
     u += space.layer_a_mask_units(ctx.quick) + space.layer_a_float_units(ctx.quick, wide=True) + space.layer_a_string_units(ctx.quick, wide=True)
     u += space.layer_a_minmax_units(ctx.quick) + space.layer_a_lead_units(ctx.quick, wide=True) + space.layer_a_plen_units(ctx.quick)
-    progs = [p for p in space.layer_c_programs(ctx.quick) if len(p["tags"][1].split("+")) <= 2]
+    progs = [p for p in space.layer_c_programs(ctx.quick) if len(p["tags"][1].split("+")) <= 3]
     chunk = 150
     u += [(f"C/{c // chunk}", progs[c:c + chunk]) for c in range(0, len(progs), chunk)]
     return u
@@ -190,7 +193,7 @@ def units_for(ctx: Ctx) -> List[Tuple[str, List[Dict[str, Any]]]]:
 def run(ctx: Ctx) -> None:
     units = units_for(ctx)
     ctx.bounds = {"layer_A": "all values of [-2^n, 2^(n+1)] for n <= %d, boundary sets up to 64 bit, wrong types" % (8 if ctx.quick else 12),
-                  "layer_C": "programs of depth <= 2, valid assignments + all single-fault neighbours (deviation bound 1)", "units": len(units),
+                  "layer_C": "programs of depth <= 3, valid assignments + all single-fault neighbours (deviation bound 1)", "units": len(units),
                   "backend": backend()}
     ctx.rule = "program x (valid or invalid) value assignment; non-trivial = distinct (construct, perturbation kind, outcome class)"
     ctx.assumptions = ["out-of-mask values of BIT-MASK types and integer-keyed MUX values are outside the envelope",
